@@ -588,6 +588,110 @@ def gen_XorbLayout():
     return "".join(out), {x.path: x.digest for x in (of, cf, cs, mc, vs)}
 
 
+def gen_DedupFacts():
+    fd = Src(os.path.join(REPO, "deduplication/src/file_deduplication.rs"))
+    dp = Src(os.path.join(REPO, "deduplication/src/defrag_prevention.rs"))
+    da = Src(os.path.join(REPO, "deduplication/src/data_aggregator.rs"))
+    us = Src(os.path.join(REPO, "data/src/file_upload_session.rs"))
+    sh = Src(os.path.join(REPO, "data/src/sha256.rs"))
+    fc = Src(os.path.join(REPO, "data/src/file_cleaner.rs"))
+    di = Src(os.path.join(REPO, "data/src/deduplication_interface.rs"))
+    out = [PRELUDE]
+    out.append("Definition NRANGES_IN_STREAMING_FRAGMENTATION_ESTIMATOR : N := %d.\n" % cc_const(dp, "NRANGES_IN_STREAMING_FRAGMENTATION_ESTIMATOR"))
+    for nm in ["MIN_N_CHUNKS_PER_RANGE_HYSTERESIS_FACTOR", "MIN_N_CHUNKS_PER_RANGE"]:
+        m = dp.one(r"\bref %s\s*:\s*f32\s*=\s*([0-9.]+)\s*;" % nm, nm)
+        from fractions import Fraction
+        fr = Fraction(m.group(1))
+        out.append("Definition %s_NUM : N := %d.\nDefinition %s_DEN : N := %d.\n" % (nm, fr.numerator, nm, fr.denominator))
+    # where are the four counters of a dedup answer booked: before the accept/reject decision, or in the accept branch?
+    pc = fd.fn_body("process_chunks")
+    book = "dedup_metrics.deduped_chunks += n_deduped; dedup_metrics.deduped_bytes += fse.unpacked_segment_bytes as usize; dedup_metrics.total_chunks += n_deduped; dedup_metrics.total_bytes += fse.unpacked_segment_bytes as usize;"
+    cond = "if self.file_data_sequence_continues_current(&fse) || self.defrag_tracker.allow_dedup_on_next_range(n_deduped) {"
+    if pc.count(book) != 1 or pc.count(cond) != 1:
+        raise TranslateError("process_chunks: dedup bookkeeping or accept condition not found exactly once")
+    if pc.index(book) < pc.index(cond):
+        bbd = "true"
+    else:
+        rest = pc[pc.index(cond) + len(cond):]
+        if not rest.lstrip().startswith(book):
+            raise TranslateError("process_chunks: bookkeeping is neither before the decision nor first in the accept branch")
+        bbd = "false"
+    out.append("Definition dedup_booked_before_decision : bool := %s.\n" % bbd)
+    for p in ["dedup_metrics.defrag_prevented_dedup_chunks += n_deduped; dedup_metrics.defrag_prevented_dedup_bytes += fse.unpacked_segment_bytes as usize;",
+              "dedup_metrics.total_chunks += 1; dedup_metrics.total_bytes += n_bytes; dedup_metrics.new_bytes += n_bytes; dedup_metrics.new_chunks += 1;",
+              "if self.new_data_size + n_bytes > *MAX_XORB_BYTES || self.new_data.len() + 1 > *MAX_XORB_CHUNKS {",
+              "&& self.file_info.last().unwrap().cas_hash == MerkleHash::default() && self.file_info.last().unwrap().chunk_index_end as usize == self.new_data.len()",
+              "self.new_data_hash_lookup.insert(chunk.hash, self.new_data.len()); self.new_data.push(chunk);"]:
+        if p not in pc:
+            raise TranslateError("process_chunks statement changed: %r" % p)
+    lq = fd.fn_body("dedup_query_against_local_data")
+    for p in ["if let Some(&base_idx) = self.new_data_hash_lookup.get(&chunks[0]) {", "if idx == base_idx + i {",
+              "Some((end_idx - base_idx, FileDataSequenceEntry::new(MerkleHash::default(), n_bytes, base_idx, end_idx)))"]:
+        if p not in lq:
+            raise TranslateError("dedup_query_against_local_data changed: %r" % p)
+    cx = fd.fn_body("cut_new_xorb")
+    for p in ["for &idx in self.internally_referencing_entries.iter() {", "fse.cas_hash = xorb_hash;",
+              "self.new_data.clear(); self.new_data_hash_lookup.clear(); self.new_data_size = 0; self.internally_referencing_entries.clear();"]:
+        if p not in cx:
+            raise TranslateError("cut_new_xorb changed: %r" % p)
+    ff = fd.fn_body("finalize")
+    for p in ["let file_hash = file_node_hash(&self.chunk_hashes, &file_hash_salt).unwrap();",
+              "let metadata = FileDataSequenceHeader::new(file_hash, self.file_info.len(), true, metadata_ext.is_some());",
+              "let n_chunks = (entry.chunk_index_end - entry.chunk_index_start) as usize;"]:
+        if p not in ff:
+            raise TranslateError("FileDeduper::finalize changed: %r" % p)
+    # defrag tracker
+    al = dp.fn_body("allow_dedup_on_next_range")
+    for p in ["if chunks_per_range < target_cpr { if (dedup_range_size as f32) < chunks_per_range { self.defrag_at_low_threshold = false; return false; } } else { self.defrag_at_low_threshold = true; }",
+              "let target_cpr = if self.defrag_at_low_threshold { self.min_chunks_per_range * self.min_chunks_per_range_historesis_factor } else { self.min_chunks_per_range };"]:
+        if p not in al:
+            raise TranslateError("allow_dedup_on_next_range changed: %r" % p)
+    if "if self.rolling_last_nranges.len() > *NRANGES_IN_STREAMING_FRAGMENTATION_ESTIMATOR { self.rolling_nranges_chunks -= self.rolling_last_nranges.pop_front().unwrap(); }" not in dp.fn_body("add_range_to_fragmentation_estimate"):
+        raise TranslateError("add_range_to_fragmentation_estimate changed")
+    if "if self.rolling_last_nranges.len() < *NRANGES_IN_STREAMING_FRAGMENTATION_ESTIMATOR { None }" not in dp.fn_body("rolling_chunks_per_range"):
+        raise TranslateError("rolling_chunks_per_range changed")
+    # aggregator
+    mi = da.fn_body("merge_in")
+    for p in ["let shift = self.chunks.len() as u32;", "if fi.cas_hash == MerkleHash::default() { fi.chunk_index_start += shift; fi.chunk_index_end += shift; }"]:
+        if p not in mi:
+            raise TranslateError("DataAggregator::merge_in changed: %r" % p)
+    # session: does the aggregated xorb's cas info reach the shard?  order of metrics snapshot vs. join loop
+    pa = us.fn_body("process_aggregated_data_as_xorb")
+    if "self.register_new_xorb_for_upload(xorb).await?;" not in pa and "self.register_new_xorb_for_upload(" not in pa:
+        raise TranslateError("process_aggregated_data_as_xorb: upload registration not found")
+    out.append("Definition aggregated_xorb_registers_cas : bool := %s.\n" % ("true" if "add_cas_block(" in pa else "false"))
+    rc = us.fn_body("register_single_file_clean_completion")
+    for p in ["if current_session_data.num_bytes() + file_data.num_bytes() > *MAX_XORB_BYTES || current_session_data.num_chunks() + file_data.num_chunks() > *MAX_XORB_CHUNKS {",
+              "if current_session_data.num_bytes() > file_data.num_bytes() { swap(&mut *current_session_data, &mut file_data); }",
+              "} else { current_session_data.merge_in(file_data); }"]:
+        if p not in rc:
+            raise TranslateError("register_single_file_clean_completion changed: %r" % p)
+    fi = us.fn_body("finalize_impl")
+    snap = "take(&mut *self.deduplication_metrics.lock().await)"
+    join = "while let Some(result) = upload_tasks.join_next().await { result??; }"
+    if fi.count(snap) != 1 or fi.count(join) != 1:
+        raise TranslateError("finalize_impl: metrics snapshot or join loop not found exactly once")
+    out.append("Definition metrics_snapshot_after_join : bool := %s.\n" % ("true" if fi.index(snap) > fi.index(join) else "false"))
+    if fi.index("self.shard_interface.upload_and_register_session_shards().await?") < fi.index(join):
+        raise TranslateError("finalize_impl: shards are uploaded before the xorb uploads are joined")
+    out.append("Definition shards_uploaded_after_xorb_join : bool := true.\n")
+    rn = di.fn_body("register_new_xorb")
+    if not ("add_cas_block(xorb.cas_info.clone())" in rn and "register_new_xorb_for_upload(xorb)" in rn):
+        raise TranslateError("UploadSessionDataManager::register_new_xorb changed")
+    # sha of the empty file
+    sf = sh.fn_body("finalize")
+    if "None => return Ok(MerkleHash::default())," in sf:
+        out.append("Definition sha_of_empty_input_is_zero : bool := true.\n")
+    elif "None => Sha256::default()," in sf or "Sha256::new()" in sf or "unwrap_or_default" in sf:
+        out.append("Definition sha_of_empty_input_is_zero : bool := false.\n")
+    else:
+        raise TranslateError("ShaGenerator::finalize: unrecognised handling of the no-update case")
+    fin = fc.fn_body("finish")
+    if "PointerFile::init_from_info(&self.file_name, &file_hash.hex(), deduplication_metrics.total_bytes as u64)" not in fin:
+        raise TranslateError("SingleFileCleaner::finish: pointer size source changed")
+    return "".join(out), {x.path: x.digest for x in (fd, dp, da, us, sh, fc, di)}
+
+
 GROUPS = {
     "GearTable": gen_GearTable,
     "ChunkConsts": gen_ChunkConsts,
@@ -595,4 +699,5 @@ GROUPS = {
     "ShardLayout": gen_ShardLayout,
     "ShardFacts": gen_ShardFacts,
     "XorbLayout": gen_XorbLayout,
+    "DedupFacts": gen_DedupFacts,
 }
